@@ -255,7 +255,7 @@ func dbgExec(p *dbgPlan, src string, withDebugger bool, prop string) dbgOutcome 
 	}
 	mainDone := false
 	var mainTid uint64
-	simrt.Go("main", func() {
+	mainTask := simrt.Go("main", func() {
 		ast, err := parser.ParseWithRuntime("c15", src, erp)
 		if err != nil {
 			simrt.Fail("oracle:setup", "setup", "program does not parse: %v\n%s", err, src)
@@ -296,6 +296,12 @@ func dbgExec(p *dbgPlan, src string, withDebugger bool, prop string) dbgOutcome 
 			}
 			st.conts[tid]++
 			simrt.Count("fault_debug_cont_" + cmd)
+			if tid == mainTid && mainTask != nil {
+				if blocked, _ := mainTask.IsBlocked(); !blocked {
+					// the window of the lost wake-up: reported suspended, not yet in Cond.Wait
+					simrt.Count("cont_sent_before_thread_reached_wait")
+				}
+			}
 			dbgCmd(dbg, prop, fmt.Sprintf("cont %d %s", tid, cmd))
 		}
 		if prop == "C16" && p.Garbage && simrt.ChooseP(0.3) {
